@@ -263,6 +263,19 @@ Theorem C18_refused_resume_unchanged : forall gc ops k c vals, let s := reach gc
 Proof. exact refused_resume_unchanged_all. Qed.
 Print Assumptions C18_refused_resume_unchanged.
 
+(* the two scraped repair flags are NEEDED by C18_error_unchanged / C18_destroy_behaviour / C18_refused_resume_unchanged:
+   under the other policy ([co_destroy_with true] = unregister before destroy, [co_resume_with false] = no rollback of the
+   arguments) an error changes the state (witnesses by vm_compute) *)
+Theorem C18_destroy_order_needed :
+  exists s k e s', co_destroy_with true k s = (CErr e, s') /\ s' <> s.
+Proof. exact destroy_order_needed. Qed.
+Print Assumptions C18_destroy_order_needed.
+
+Theorem C18_resume_rollback_needed :
+  exists s k vals e s', co_resume_with false k vals s = (CErr e, s') /\ s' <> s.
+Proof. exact resume_rollback_needed. Qed.
+Print Assumptions C18_resume_rollback_needed.
+
 (* facts about the constants scraped from the source on this run *)
 Theorem C18_gen_facts :
   DESTROY_UNREGISTERS_FIRST = false /\ RESUME_ROLLS_BACK_ARGS = true /\ GC_REGISTERS_WHOLE_CORO_BLOCK = true /\ MCO_ZERO_MEMORY = true /\ 0 < STORAGE_SIZE /\
